@@ -1937,6 +1937,8 @@ class Recipe:
             raise ValueError(f"Destination {destination_name} has not been previously declared for use.")
         if not isinstance(quantity, str):
             raise TypeError("Volume must be a str. ('5 mL')")
+        if isinstance(source, Container) and isinstance(destination, Container) and source.name == destination_name:
+            raise ValueError("Source and destination must be different containers.")
         if isinstance(source, Plate):
             source = source[:]
         if isinstance(destination, Plate):
